@@ -61,7 +61,8 @@ def main():
         for p in name.split("_")[0].split("+"):
             jobs.append((name, f, p, False, a.tier, a.seed))
     if a.only:
-        jobs = [j for j in jobs if a.only in j[0] or a.only == j[2]]
+        pats = a.only.split(",")
+        jobs = [j for j in jobs if any(o in j[0] or o == j[2] for o in pats)]
     results = []
     with cf.ThreadPoolExecutor(a.jobs) as ex:
         for name, prop, status, detail in ex.map(run, jobs):
